@@ -355,7 +355,7 @@ impl Check for C15 {
             Ok(ordinal) => {
                 let mut rng = rng_from(case_seed(seed ^ 0xA15, ordinal));
                 let levels: Vec<String> = (0..rng.gen_range(3..=10)).map(|_| LEVELS[rng.gen_range(0..8)].to_string()).collect();
-                return serde_json::json!({ "real_node": { "listen_unspecified": rng.gen_bool(0.8), "dc": format!("dc{}", rng.gen_range(0..3)), "levels": levels, "net_seed": rng.gen::<u64>() } });
+                return serde_json::json!({ "real_node": { "listen_unspecified": rng.gen_bool(0.8), "dc": (["dc0", "EU-West", "us East 1", "AP_South", "dc2"][rng.gen_range(0..5)]), "levels": levels, "net_seed": rng.gen::<u64>() } });
             },
             Err(main) => main,
         };
